@@ -279,7 +279,7 @@ def run(tier, seed, build=True):
                     res.violation({"kind": "container", "container": cn.rsplit(".", 1)[-1], "symptom": "bytes-differ"}, "journal %s stored as %s prints %d bytes vs %d for the plain file" % (jname, cn, len(r.out), len(base_out)),
                                   {"engine": "E-CLI", "args": ["--color", "never", cn], "journal": jname})
                 shutil.rmtree(cdir, ignore_errors=True)
-        # an archive holding two different journals whose member names end alike (`j/old-u3.journal`, then `j/u3.journal`):
+        # an archive holding two different journals whose member names end alike (`old-u3.journal`, then `u3.journal`):
         # each member must print its own entries
         names = dict(js)
         if "u3" in names and "v_multiline" in names:
@@ -287,7 +287,7 @@ def run(tier, seed, build=True):
             da = open(os.path.join(work, names["v_multiline"]), "rb").read()
             db = open(os.path.join(work, names["u3"]), "rb").read()
             for order in (("old-u3.journal", "u3.journal"), ("u3.journal", "old-u3.journal")):
-                members = [("j/" + n, da if n.startswith("old-") else db) for n in order]
+                members = [(n, da if n.startswith("old-") else db) for n in order]
                 common.write_file(os.path.join(d2, "two.tar"), gen.tar(members))
                 for n, blob in members:
                     common.write_file(os.path.join(d2, n), blob)
